@@ -320,6 +320,10 @@ def known(ctx, c):
     # any failure while coap_handle_response_get_block reassembles / asks for the next block: the single block goes to the app
     if w[1] == "b2" and some_site("coap_handle_response_get_block") and what == {"body"}:
         return "block2-partial-body-on-alloc-failure"
+    # coap_block_build_body fails in coap_handle_request_put_block (5.00 sent), the block stays recorded as received: when
+    # the request is repeated (5.00 lost) the transfer continues and the handler gets a body without that block
+    if w[1] == "b1" and some_site("coap_block_build_body", "coap_handle_request_put_block") and what == {"body"}:
+        return "block1-wrong-body-after-build-body-failure"
     return None
 
 
